@@ -528,6 +528,30 @@ impl Space for RoundTrip {
                 }
             }
         }
+        // the route of the command-line tool and the Python binding: files named in the configuration,
+        // memory-mapped by the library
+        {
+            o.evaluations += 1;
+            let tag = format!("c05_{}", format!("{:?}", std::thread::current().id()).replace(|ch: char| !ch.is_ascii_digit(), ""));
+            match catch(|| {
+                let cfgp = bare_plugins(&pos_of(P_NOUN));
+                load_from_files(&dir, &cfgp, &sys, &users, &tag)
+            }) {
+                Err(p) => o.fail(Failure::panic(&format!("{} loading from files", ctx), &p)),
+                Ok(Err(e)) => o.fail(Failure::new("load-error", format!("{} from files: {}", ctx, e))),
+                Ok(Ok(dict)) => {
+                    let c2 = format!("{} loaded from files", ctx);
+                    match catch(|| {
+                        let mut o2 = Outcome::new();
+                        self.verify(&case, &dict, &c2, &mut o2, 1);
+                        o2
+                    }) {
+                        Ok(o2) => o.failures.extend(o2.failures),
+                        Err(p) => o.fail(Failure::panic(&format!("{} reading back", c2), &p)),
+                    }
+                }
+            }
+        }
         // the same user dictionary loaded as the SECOND user dictionary (behind a small one that brings
         // a part of speech of its own): every reference inside it must now carry dictionary number 2
         if user && !users.is_empty() {
